@@ -3,8 +3,8 @@ use nom::{
     branch::alt,
     bytes::complete::tag,
     character::complete::digit1,
-    combinator::{map, opt},
-    sequence::tuple,
+    combinator::{map, not, opt, peek},
+    sequence::{terminated, tuple},
 };
 
 use super::super::{
@@ -15,8 +15,14 @@ use super::super::{
 impl Parser for Attribute {
     fn parse(input: &str) -> IResult<&str, Attribute> {
         alt((
-            map(tag("required"), |_| Attribute::Required),
-            map(tag("optional"), |_| Attribute::Optional),
+            map(
+                terminated(tag("required"), peek(not(alphanumeric_or_underscore))),
+                |_| Attribute::Required,
+            ),
+            map(
+                terminated(tag("optional"), peek(not(alphanumeric_or_underscore))),
+                |_| Attribute::Optional,
+            ),
         ))(input)
     }
 }
